@@ -391,6 +391,12 @@ func (c *Compiler) compileStatement(stmt ast.Statement) error {
 
 // compileAssignStatement compiles variable assignment
 func (c *Compiler) compileAssignStatement(stmt *ast.AssignStatement) error {
+	// `$ obj.field = v` assigns a field in the interpreter. There is no
+	// bytecode for it; storing into a local literally named "obj.field" would
+	// silently do something else, so leave such programs to the interpreter.
+	if strings.Contains(stmt.Target, ".") {
+		return fmt.Errorf("assignment to field path '%s' is not supported by the compiler", stmt.Target)
+	}
 	// Check for redeclaration in current scope (issue #70)
 	// Variables declared with $ cannot be redeclared in the same scope
 	// Built-in variables (query, input, ws, auth) can be shadowed by user declarations
